@@ -32,6 +32,9 @@ def cases(tier, seed, PROP='C01'):
         yield {'stratum': 'e2e', 'index': i, 'kind': 'e2e'}
     for i in range(40 if tier == 'quick' else 400):
         yield {'stratum': 'sul', 'index': i, 'kind': 'sul'}
+    # output buffers far larger than anything the other strata fill (tens of MiB accumulated before one flush)
+    for i, (ocs, total_mib) in enumerate([(2 ** 25, 19)] if tier == 'quick' else [(2 ** 25, 19), (2 ** 25 + 7, 40), (2 ** 24, 17), (2 ** 26, 33)]):
+        yield {'stratum': 'large-output-buffer', 'index': i, 'kind': 'big-buffer', 'ocs': ocs, 'mib': total_mib}
     # the label as an object of the user's own, and label fields re-assigned between two writes of one DLISFile
     for i in range(40 if tier == 'quick' else 600):
         yield {'stratum': 'label-object-and-rewrite', 'index': i, 'kind': 'label'}
@@ -78,6 +81,16 @@ def run_case(case, PROP='C01'):
         run = harness.write_records(mx, _records_for(lengths, mx), output_chunk_size=ocs,
                                     set_identifier=gen.name(r, 'SET', r.choice([3, 10, 59, 60])),
                                     seq=r.choice([1, 2, 9, 10, 99, 100, 999, 1000, 9999, '3', '42']))
+    elif case['kind'] == 'big-buffer':
+        r = gen.rng(seed, PROP, case['stratum'], case['index'])
+        mx = r.choice([8192, 16384])
+        lengths = [2 ** 20 - r.randrange(0, 40) for _ in range(case['mib'])] + [100, 13]
+        blob = bytes(range(256)) * 4096      # 1 MiB
+        recs = [(n % 2 == 0, (n % 6) if n % 2 == 0 else (n % 2), bytes([n]) + blob[1:L - 1] + b'\x01') for n, L in enumerate(lengths)]
+        run = harness.write_records(mx, recs, output_chunk_size=case['ocs'])
+        obs['large-output-buffer'] = 1
+        if run.data is not None and len(run.data) > 2 ** 24:
+            obs['file-larger-than-16MiB-in-one-buffer'] = 1
     elif case['kind'] == 'e2e':
         r = gen.rng(seed, PROP, case['stratum'], case['index'])
         mx = r.choice([20, 24, 32, 40, 64, 100, 128, 256, 512, 1024, 8192, 16384])
